@@ -70,6 +70,12 @@ def make_variant(rng, base):
 def run_shard(ctx, shard):
     rng = rng_for(ctx.seed, ID, shard['name'])
     circles = ctx.extra['circles']
+    if shard['name'] == 'v-0':
+        for name, rows in gen.bundled_whole(with_legend=True):
+            base = '\n'.join(rows) + '\n'
+            for rep in range(3):
+                ctx.run_case({'base': base, 'variant': make_variant(rng, base)})
+            ctx.tag('bundled_documents')
     for i in range(shard['n']):
         kind, rows = gen.diagram(rng, circles, allow_quotes=True, allow_braces=True)
         rows = list(rows)
